@@ -75,6 +75,25 @@ func searchClasses(c *dbCase, m *model, info genInfo) (bool, []string) {
 func TestPropSearch(t *testing.T) {
 	rapid.Check(t, func(rt *rapid.T) {
 		c, info := genDB(rt, 60, 25)
+		propSearch(rt, c, info)
+	})
+}
+
+// TestPropLong: the same checks (search, identify, index) on sequences of 150..560 nt:
+// more than 255 4-mers per sequence, up to 500 occurrences of one word in tandem repeats.
+func TestPropLong(t *testing.T) {
+	rapid.Check(t, func(rt *rapid.T) {
+		c, info := genDBLim(rt, 10, 12, longLimits)
+		if rapid.Bool().Draw(rt, "index") {
+			propIndex(rt, c, info, "lengths:long")
+		} else {
+			propSearch(rt, c, info, "lengths:long")
+		}
+	})
+}
+
+func propSearch(rt *rapid.T, c dbCase, info genInfo, more ...string) {
+	{
 		// references carrying their index beforehand: none, some, or all
 		switch rapid.IntRange(0, 3).Draw(rt, "preindexed") {
 		case 0:
@@ -88,6 +107,7 @@ func TestPropSearch(t *testing.T) {
 		}
 		m := newModel(&c)
 		nt, cl := searchClasses(&c, m, info)
+		cl = append(cl, more...)
 		key := caseKey(&c)
 
 		evid.Eval("findclosests", key, nt, c, cl...)
@@ -122,7 +142,7 @@ func TestPropSearch(t *testing.T) {
 		if err := identifyM(&c, m); err != nil {
 			evid.Fail(rt, "identify", c, err)
 		}
-	})
+	}
 }
 
 // TestPropIndex: IndexSequence of several references of a database against the
@@ -130,9 +150,25 @@ func TestPropSearch(t *testing.T) {
 func TestPropIndex(t *testing.T) {
 	rapid.Check(t, func(rt *rapid.T) {
 		c, info := genDB(rt, 30, 25)
+		propIndex(rt, c, info)
+	})
+}
+
+func propIndex(rt *rapid.T, c dbCase, info genInfo, more ...string) {
+	{
 		c.Targets = rapid.SliceOfN(rapid.IntRange(0, len(c.Refs)-1), 1, 6).Draw(rt, "targets")
+		// one case in four: some references (the indexed ones among them, or all) carry the index of another database
+		switch rapid.IntRange(0, 7).Draw(rt, "stale") {
+		case 0:
+			c.Stale = rapid.SliceOfN(rapid.IntRange(0, len(c.Refs)-1), 1, 8).Draw(rt, "stale_refs")
+			c.Stale = append(c.Stale, c.Targets[0])
+		case 1:
+			for i := range c.Refs {
+				c.Stale = append(c.Stale, i)
+			}
+		}
 		m := newModel(&c)
-		key := caseKey(&c)
+		key := evid.Hash(caseKey(&c), fmt.Sprint(c.Stale))
 		for _, r := range c.Targets {
 			want := m.expectedIndex(r)
 			maxKey := 0
@@ -152,12 +188,15 @@ func TestPropIndex(t *testing.T) {
 					hidden = true
 				}
 			}
-			cl := []string{"index_entries:" + bucket(len(want), 1, 2, 3), "index_tree:" + info.TreeShape}
+			cl := append([]string{"index_entries:" + bucket(len(want), 1, 2, 3), "index_tree:" + info.TreeShape}, more...)
 			if skipped > 0 {
 				cl = append(cl, "index_scan_skips_some_reference")
 			}
 			if hidden {
 				cl = append(cl, "index_longer_reference_contains_all_words")
+			}
+			if len(c.Stale) > 0 {
+				cl = append(cl, "index_references_carry_index_of_another_database")
 			}
 			one := c
 			one.Targets = []int{r}
@@ -166,5 +205,5 @@ func TestPropIndex(t *testing.T) {
 		if err := indexM(&c, m); err != nil {
 			evid.Fail(rt, "indexsequence", c, err)
 		}
-	})
+	}
 }
